@@ -140,57 +140,38 @@ Qed.
 Print Assumptions C15_ipc_uniform.
 
 (* ------------------------------------------------------------------------------------------ persistence *)
-(* The full statement of the property: pixel' + sum trapped' = pixel + sum trapped and trapped' >= 0,
-   for any number n >= 1 of trap species inside the documented ranges. *)
-Definition C15_persistence_conserves_full : Prop :=
+(* The full statement of the property (refuted in round 1 by the faithful model of the then code - finding C15-F14,
+   repaired by `fix: persistence returns the clipped charge of every trap species to the pixel`; the model is the
+   repaired code): pixel' + sum trapped' = pixel + sum trapped and trapped' >= 0, for ANY number n >= 1 of trap
+   species inside the documented ranges. *)
+Theorem C15_persistence_conserves :
   forall sp tr p, length sp = length tr -> sp <> [] ->
     forallb species_ok sp = true -> forallb (Qle_bool 0) tr = true -> 0 <= p ->
     fst (persist_pixel sp tr p) + qsum (snd (persist_pixel sp tr p)) == p + qsum tr
     /\ nonneg (snd (persist_pixel sp tr p)).
+Proof.
+  intros sp tr p Hl _ Hs Ht Hp. split; [apply persist_conserves; exact Hl|].
+  apply (persist_nonneg sp tr p (species_ok_all sp Hs) (nonneg_b tr Ht) Hp).
+Qed.
+Print Assumptions C15_persistence_conserves.
 
-(* REFUTED by the faithful model of the unchanged code: two species, densities 1/2 and 1/4, time factor 1,
-   empty traps, 100 e- in the pixel: 40.625 + 18.75 + 9.375 = 68.75 <> 100 (31.25 e- vanish: the first
-   species' clipped excess is not returned to the pixel). *)
+(* the former failing input (100 e-, two species of densities 1/2 and 1/4, time factor 1, empty traps; the
+   unrepaired code returned 40.625 + 18.75 + 9.375 = 68.75) now keeps its 100 e- *)
 Definition witness_species : list species :=
   simple_species 1 [1; 1] [1 # 2; 1 # 4] None.
 
-Theorem C15_persistence_conserves_refuted : ~ C15_persistence_conserves_full.
-Proof.
-  intros H. assert (P : 0 <= 100) by (apply Qle_bool_iff; reflexivity).
-  specialize (H witness_species [0; 0] 100 eq_refl ltac:(discriminate) eq_refl eq_refl P).
-  destruct H as [H _]. vm_compute in H. discriminate H.
-Qed.
-Print Assumptions C15_persistence_conserves_refuted.
-
 Theorem C15_persistence_witness_values :
   let r := persist_pixel witness_species [0; 0] 100 in
-  Qred (fst r) = 325 # 8 /\ map Qred (snd r) = [75 # 4; 75 # 8]
-  /\ Qred (persist_lost witness_species [0; 0] 100) = 125 # 4.
+  Qred (fst r) = 575 # 8 /\ map Qred (snd r) = [75 # 4; 75 # 8] /\ Qred (fst r + qsum (snd r)) = 100.
 Proof. vm_compute. repeat split. Qed.
 Print Assumptions C15_persistence_witness_values.
 
-(* What IS true, for all inputs and any number of species: an exact account in which the only leak is the
-   clipped excess of the species before the last one (persist_lost >= 0); hence exact conservation for one
-   species, and for n species exactly when nothing but the last species is clipped. *)
-Theorem C15_persistence_conserves_partial :
-  (forall s t p, fst (persist_pixel [s] [t] p) + qsum (snd (persist_pixel [s] [t] p)) == p + qsum [t])
-  /\ (forall sp tr p, length sp = length tr -> sp <> [] ->
-        fst (persist_pixel sp tr p) + qsum (snd (persist_pixel sp tr p)) + persist_lost sp tr p == p + qsum tr
-        /\ 0 <= persist_lost sp tr p
-        /\ (fst (persist_pixel sp tr p) + qsum (snd (persist_pixel sp tr p)) == p + qsum tr
-            <-> persist_lost sp tr p == 0)).
-Proof.
-  split; [exact persist_conserves_one|]. intros sp tr p H NE.
-  split; [apply persist_account; assumption|]. split; [apply persist_lost_nonneg|].
-  apply persist_conserves_iff; assumption.
-Qed.
-Print Assumptions C15_persistence_conserves_partial.
-
-(* charge is never created: any number of species, any parameters *)
-Theorem C15_persistence_no_creation : forall sp tr p, length sp = length tr -> sp <> [] ->
-  fst (persist_pixel sp tr p) + qsum (snd (persist_pixel sp tr p)) <= p + qsum tr.
-Proof. exact persist_no_creation. Qed.
-Print Assumptions C15_persistence_no_creation.
+(* conservation itself needs no range hypothesis: any number of species (zero included), ANY parameters *)
+Theorem C15_persistence_conserves_any_parameters : forall sp tr p, length sp = length tr ->
+  fst (persist_pixel sp tr p) + qsum (snd (persist_pixel sp tr p)) == p + qsum tr
+  /\ length (snd (persist_pixel sp tr p)) = length tr.
+Proof. intros. split; [apply persist_conserves | apply persist_length]; assumption. Qed.
+Print Assumptions C15_persistence_conserves_any_parameters.
 
 (* trapped charge and the pixel never become negative: any number of species in the documented ranges *)
 Theorem C15_persistence_nonneg : forall sp tr p,
@@ -204,23 +185,24 @@ Proof.
 Qed.
 Print Assumptions C15_persistence_nonneg.
 
-(* repeated application over any number of readouts, each collecting `add >= 0` electrons first:
-   invariants kept, total never above what was put in; with one species the total is exact *)
-Theorem C15_persistence_steps : forall steps tr p, tr <> [] ->
+(* repeated application over any number of readouts, each collecting `add >= 0` electrons first, any number of
+   species: invariants kept and the total is EXACTLY what was there plus everything collected *)
+Theorem C15_persistence_steps : forall steps tr p,
   Forall (step_ok (length tr)) steps -> nonneg tr -> 0 <= p ->
   0 <= fst (persist_steps steps tr p) /\ nonneg (snd (persist_steps steps tr p))
   /\ length (snd (persist_steps steps tr p)) = length tr
   /\ fst (persist_steps steps tr p) + qsum (snd (persist_steps steps tr p))
-     <= p + qsum tr + qsum (map fst steps).
+     == p + qsum tr + qsum (map fst steps).
 Proof. exact persist_steps_inv. Qed.
 Print Assumptions C15_persistence_steps.
 
-Theorem C15_persistence_steps_one_species : forall steps t p,
-  Forall (fun st => length (snd st) = 1%nat) steps ->
-  exists t', snd (persist_steps steps [t] p) = [t'] /\
-  fst (persist_steps steps [t] p) + t' == p + t + qsum (map fst steps).
-Proof. exact persist_steps_one. Qed.
-Print Assumptions C15_persistence_steps_one_species.
+Theorem C15_persistence_steps_total : forall steps tr p,
+  Forall (fun st => length (snd st) = length tr) steps ->
+  length (snd (persist_steps steps tr p)) = length tr
+  /\ fst (persist_steps steps tr p) + qsum (snd (persist_steps steps tr p))
+     == p + qsum tr + qsum (map fst steps).
+Proof. exact persist_steps_total. Qed.
+Print Assumptions C15_persistence_steps_total.
 
 (* the parameter ranges documented for the two entry points give species inside the ranges used above *)
 Theorem C15_persistence_entry_points :
@@ -279,6 +261,25 @@ Theorem C15_cdm_prefix_partial : forall P : cdm_par,
 Proof. intros P H1 H2 H3 H4 nsp lines Hl. apply cdm_run_prefix; assumption. Qed.
 Print Assumptions C15_cdm_prefix_partial.
 
+(* the range checks of the wrapper, as read from the source (finding C15-cdm-nan, repaired by `fix: cdm rejects a
+   zero 'max_electron_volume' and a zero full well capacity`): exactly the documented ranges with the two divisors
+   of the capture coefficients strictly positive; the capacity is the argument when given, else the
+   characteristics' *)
+Theorem C15_cdm_guard : forall vg beta fwc t,
+  src_cdm_guard vg beta fwc t = cdm_params_ok vg beta fwc t
+  /\ (src_cdm_guard vg beta fwc t = true ->
+      0 < 2 * vg /\ 0 < fwc /\ vg <= 1 /\ fwc <= 10000000 /\ 0 <= beta <= 1 /\ 0 <= t <= 10)
+  /\ src_cdm_guard 0 beta fwc t = false /\ src_cdm_guard vg beta 0 t = false
+  /\ (forall arg char, src_cdm_fwc_select arg char = select_arg arg char).
+Proof.
+  intros. assert (E : forall a b c d, src_cdm_guard a b c d = cdm_params_ok a b c d).
+  { intros. unfold src_cdm_guard, cdm_params_ok. btauto. }
+  rewrite !E. split; [reflexivity|]. split; [apply cdm_params_divisors|].
+  destruct (cdm_params_reject_zero beta fwc t vg) as [A B].
+  split; [exact A|]. split; [exact B|]. intros [a|] char; reflexivity.
+Qed.
+Print Assumptions C15_cdm_guard.
+
 (* the real functions approximated by the code meet those ranges (this one uses the real-number axioms) *)
 Theorem C15_cdm_real_factors :
   (forall a b, (0 < a)%R -> Rpower a b = (a * Rpower a (b - 1))%R)
@@ -322,6 +323,17 @@ Proof.
   split; [reflexivity|]. unfold step_ok. split; [simpl; lra|]. split; [reflexivity|].
   apply species_ok_all. reflexivity.
 Qed.
+
+(* three clipped species with capacities, two readouts: every electron is accounted for *)
+Example ex_persist_three_species_clipped :
+  let sp := simple_species 2 [1; 1; 4] [1 # 2; 1 # 4; 1 # 8] (Some [8; 4; 2]) in
+  let r := persist_steps [(0, sp); (50, sp)] [0; 0; 0] 100 in
+  Qred (fst r + qsum (snd r)) = 150 /\ map Qred (snd r) = [8; 4; 2].
+Proof. vm_compute. split; reflexivity. Qed.
+
+Example ex_cdm_params : cdm_params_ok (1 # 10000000000) (3 # 10) 100000 (1 # 1000) = true
+  /\ cdm_params_ok 0 (3 # 10) 100000 0 = false.
+Proof. split; reflexivity. Qed.
 
 (* a step that really captures and releases: a = 1000, gamma = 1/2, occupancy 3, pc = 1/2, r = 1/4 *)
 Example ex_cdm_step_nontrivial :
